@@ -1,8 +1,8 @@
 (* C16 -- Array-like objects have value semantics under structural operations.
    Property theorems only; proofs are in Proofs/C16Proofs.v (faithful = spec,
    naturality, index-array representation), Proofs/C16Layout.v (which
-   permutation each operation is) and Proofs/C16Findings.v (metadata, refuted
-   strata, read-only properties).
+   permutation each operation is) and Proofs/C16Findings.v (metadata, the
+   clauses repaired by the `fix:` commits, read-only properties).
 
    Objects are (shape, rows, metadata); a row is (value, improper flag), i.e.
    one line of orix's widened `_data`.  `step_cls` is the FAITHFUL machine:
@@ -12,35 +12,25 @@
    SPECIFICATION: every structural operation acts on the rows exactly as on
    an index array, element-wise operations map over rows, metadata is kept.
    Everything is generic in the value type V and its unit/inverse/negation. *)
-From Coq Require Import ZArith List Bool Reals Permutation Sorted.
-From Verif Require Import Scalar RInst NdIndex C16Model C16Index C16Proofs C16Layout C16Shape C16Findings.
+From Coq Require Import ZArith List Bool Permutation Sorted.
+From Verif Require Import Scalar NdIndex C16Model C16Index C16Proofs C16Layout C16Shape C16Findings.
 Import ListNotations.
 
 (* ---- 1. the implementation's methods ARE the specification, for every class,
-   every operation, every shape/flags/metadata, outside the recorded findings
-   ([safe_step] is false exactly on: transpose of a >= 2-axis rotation-like
-   object with a set flag, unit of a rotation-like object with a set flag,
-   unit / minus of a misorientation or minus of a Miller with non-default
-   metadata, Miller.squeeze, and stacks containing such variants) *)
-Theorem C16_step_outside_findings : forall V (vf : vfuns V) c o (x : obj V),
-  wf c x = true -> safe_step c o x = true -> step_cls vf c o x = step_spec vf c o x.
+   every operation, every shape/flags/metadata ([wf] is the class invariant:
+   metadata fields a class does not have are at their defaults, classes
+   without an improper column carry no flag) *)
+Theorem C16_step : forall V (vf : vfuns V) c o (x : obj V),
+  wf c x = true -> step_cls vf c o x = step_spec vf c o x.
 Proof. exact @step_faithful. Qed.
-Print Assumptions C16_step_outside_findings.
+Print Assumptions C16_step.
 
-(* ---- 2. ... hence for ALL finite programs whose run stays outside them
-   (induction over the operation list; the class invariant is preserved) *)
-Theorem C16_programs_outside_findings : forall V (vf : vfuns V) c p (x : obj V),
-  wf c x = true -> safe_run vf c p x = true ->
-  run (step_cls vf c) p x = run (step_spec vf c) p x.
+(* ---- 2. ... hence for ALL finite programs (induction over the operation
+   list; the class invariant is preserved) *)
+Theorem C16_programs : forall V (vf : vfuns V) c p (x : obj V),
+  wf c x = true -> run (step_cls vf c) p x = run (step_spec vf c) p x.
 Proof. exact @run_faithful. Qed.
-Print Assumptions C16_programs_outside_findings.
-
-(* full strength (no side condition at all) for quaternions and vectors *)
-Theorem C16_quaternion_vector_programs : forall V (vf : vfuns V) c p (x : obj V),
-  (c = CQuat \/ c = CVec) -> wf c x = true ->
-  run (step_cls vf c) p x = run (step_spec vf c) p x.
-Proof. exact @run_faithful_plain. Qed.
-Print Assumptions C16_quaternion_vector_programs.
+Print Assumptions C16_programs.
 
 (* ---- 3. structural programs permute the rows (value AND flag together)
    exactly as they permute the index array 0..n-1, for every class, shape,
@@ -57,9 +47,9 @@ Print Assumptions C16_index_array.
    a structural program (getitem / reshape / flatten / transpose / squeeze, any
    length) on an object of any class returns the rows gathered exactly as the
    index array is, with the same metadata, or raises exactly when the
-   index-array run is an error -- whenever the run stays outside the findings *)
+   index-array run is an error *)
 Theorem C16_class_index_array : forall V (vf : vfuns V) c p (x : obj V),
-  wf c x = true -> safe_run vf c p x = true -> forallb is_struct p = true ->
+  wf c x = true -> forallb is_struct p = true ->
   run (step_cls vf c) p x
   = option_map (fun a => mkObj (fst a) (gather (drow vf) (orows x) (snd a)) (ometa x))
                (arun act_idx (length (orows x)) p (oshape x, seq 0 (length (orows x)))).
@@ -156,83 +146,110 @@ Print Assumptions C16_shape_consistent.
 (* ---- 6. metadata: a program of single-object operations returns the assigned
    symmetry / phase / coordinate format (the symmetry pair of a
    misorientation swapped once per inversion) -- on the implementation's
-   method table, outside the findings *)
+   method table *)
 Theorem C16_metadata_preserved : forall V (vf : vfuns V) c p (x x' : obj V),
-  wf c x = true -> safe_run vf c p x = true -> no_stack p = true ->
+  wf c x = true -> no_stack p = true ->
   run (step_cls vf c) p x = Some x' ->
   ometa x' = if (is_mis c && inv_parity p)%bool then meta_swap (ometa x) else ometa x.
 Proof. exact @metadata_preserved_faithful. Qed.
 Print Assumptions C16_metadata_preserved.
 
-(* ---- 7. the findings: the faithful machine violates the property here
-   (each witness is replayed on the implementation by the oracle and listed
-   in known_findings.d/C16.json); theorems 1, 2, 6 are the
-   `_outside_finding` companions *)
-Theorem C16_transpose_flags_refuted :
-  exists x, differs_in o_flags CRot (OTranspose None) x
-         /\ differs_in o_flags COri (OTranspose (Some [1; 0])) (mkObj (oshape x) (orows x) (mkMeta 0 5 0 0))
-         /\ differs_in o_flags CMis (OTranspose None) (mkObj (oshape x) (orows x) (mkMeta 3 5 0 0)).
-Proof. exact transpose_flags_refuted. Qed.
-Print Assumptions C16_transpose_flags_refuted.
+(* ---- 7. the clauses that were refuted before the `fix:` commits (the former
+   known findings, now "fixed" entries of known_findings.d/C16.json), for every
+   well-formed object; instances of theorem 1 spelled out *)
+(* transpose of an object with >= 2 axes, of any class and with any flags:
+   value and improper flag travel together, metadata kept *)
+Theorem C16_transpose_flags : forall V (vf : vfuns V) c ax (x : obj V),
+  wf c x = true -> Nat.eqb (length (oshape x)) 1 = false ->
+  perm_ok (length (oshape x)) ax = true ->
+  step_cls vf c (OTranspose (Some ax)) x
+  = Some (mkObj (tr_shape (oshape x) ax)
+                (gather (drow vf) (orows x) (idx_transpose (oshape x) ax)) (ometa x)).
+Proof. exact @transpose_flags. Qed.
+Print Assumptions C16_transpose_flags.
 
-Theorem C16_unit_flags_refuted :
-  exists x, differs_in o_flags CRot (OEl EUnit) x
-         /\ differs_in o_flags COri (OEl EUnit) (mkObj (oshape x) (orows x) (mkMeta 0 5 0 0))
-         /\ differs_in o_flags CMis (OEl EUnit) (mkObj (oshape x) (orows x) (mkMeta 3 5 0 0)).
-Proof. exact unit_flags_refuted. Qed.
-Print Assumptions C16_unit_flags_refuted.
+Theorem C16_transpose2_flags : forall V (vf : vfuns V) c (x : obj V),
+  wf c x = true -> length (oshape x) = 2 ->
+  step_cls vf c (OTranspose None) x
+  = Some (mkObj (tr_shape (oshape x) [1; 0])
+                (gather (drow vf) (orows x) (idx_transpose (oshape x) [1; 0])) (ometa x)).
+Proof. exact @transpose2_flags. Qed.
+Print Assumptions C16_transpose2_flags.
 
-Theorem C16_misorientation_unit_symmetry_refuted : exists x, differs_in ometa CMis (OEl EUnit) x.
-Proof. exact misorientation_unit_symmetry_refuted. Qed.
-Print Assumptions C16_misorientation_unit_symmetry_refuted.
+(* .unit of any class keeps every flag (and shape, metadata) *)
+Theorem C16_unit_flags : forall V (vf : vfuns V) c (x : obj V),
+  wf c x = true ->
+  exists y, step_cls vf c (OEl EUnit) x = Some y
+            /\ oshape y = oshape x /\ o_data y = map (v_unit vf) (o_data x)
+            /\ o_flags y = o_flags x /\ ometa y = ometa x.
+Proof. exact @unit_flags. Qed.
+Print Assumptions C16_unit_flags.
 
-Theorem C16_misorientation_neg_symmetry_refuted : exists x, differs_in ometa CMis (OEl ENeg) x.
-Proof. exact misorientation_neg_symmetry_refuted. Qed.
-Print Assumptions C16_misorientation_neg_symmetry_refuted.
+Theorem C16_misorientation_unit_symmetry : forall V (vf : vfuns V) (x : obj V),
+  wf CMis x = true ->
+  exists y, step_cls vf CMis (OEl EUnit) x = Some y /\ ometa y = ometa x.
+Proof. exact @misorientation_unit_symmetry. Qed.
+Print Assumptions C16_misorientation_unit_symmetry.
 
-Theorem C16_miller_neg_metadata_refuted : exists x, differs_in ometa CMil (OEl ENeg) x.
-Proof. exact miller_neg_metadata_refuted. Qed.
-Print Assumptions C16_miller_neg_metadata_refuted.
+Theorem C16_misorientation_neg_symmetry : forall V (vf : vfuns V) (x : obj V),
+  wf CMis x = true ->
+  exists y, step_cls vf CMis (OEl ENeg) x = Some y
+            /\ o_data y = o_data x /\ o_flags y = map negb (o_flags x) /\ ometa y = ometa x.
+Proof. exact @misorientation_neg_symmetry. Qed.
+Print Assumptions C16_misorientation_neg_symmetry.
 
-Theorem C16_miller_squeeze_refuted :
-  exists x, wf CMil x = true /\ step_cls vfN CMil OSqueeze x = None
-            /\ exists z, step_spec vfN CMil OSqueeze x = Some z.
-Proof. exact miller_squeeze_refuted. Qed.
-Print Assumptions C16_miller_squeeze_refuted.
+Theorem C16_miller_neg_metadata : forall V (vf : vfuns V) (x : obj V),
+  wf CMil x = true ->
+  exists y, step_cls vf CMil (OEl ENeg) x = Some y
+            /\ oshape y = oshape x /\ o_data y = map (v_neg vf) (o_data x) /\ ometa y = ometa x.
+Proof. exact @miller_neg_metadata. Qed.
+Print Assumptions C16_miller_neg_metadata.
 
-(* ---- 8. read-only properties: Vector3d.azimuth writes into the object's data
-   (refuted over the reals: x = 1e-9 is replaced by 0); it does not when no
-   x/y component is a non-zero number within 1e-8 of 0; every other public
-   property is a pure function in the model (the harness deep-compares the
-   operands around every property read on the implementation) *)
-Theorem C16_azimuth_mutation_refuted : exists x : obj (list R), after_read ROps PAzimuth x <> x.
-Proof. exact azimuth_mutation_refuted. Qed.
-Print Assumptions C16_azimuth_mutation_refuted.
+Theorem C16_miller_squeeze : forall V (vf : vfuns V) (x : obj V),
+  wf CMil x = true ->
+  step_cls vf CMil OSqueeze x
+  = Some (mkObj (atleast1 (squeeze_shape (oshape x))) (orows x) (ometa x)).
+Proof. exact @miller_squeeze. Qed.
+Print Assumptions C16_miller_squeeze.
 
-Theorem C16_azimuth_outside_finding : forall T (O : Ops T) (x : obj (list T)),
-  Forall (fun r => az_fixed O (fst r)) (orows x) -> after_read O PAzimuth x = x.
-Proof. exact @azimuth_no_mutation_outside. Qed.
-Print Assumptions C16_azimuth_outside_finding.
+(* ---- 8. read-only properties: Vector3d.azimuth rounds near-zero x/y components
+   on COPIES, the object is left as it is (the correspondence compares the
+   implementation's data after the read with this model; the oracle
+   deep-compares the operands around every property read); every other
+   public property is a pure function in the model *)
+Theorem C16_azimuth_no_mutation : forall T (x : obj (list T)), after_read PAzimuth x = x.
+Proof. exact @azimuth_no_mutation. Qed.
+Print Assumptions C16_azimuth_no_mutation.
 
-Theorem C16_other_properties_pure_partial : forall T (O : Ops T) (x : obj (list T)) i,
-  after_read O (PPure i) x = x.
-(* full statement: every public property other than azimuth leaves `_data`
+Theorem C16_other_properties_pure_partial : forall T (x : obj (list T)) i,
+  after_read (PPure i) x = x.
+(* full statement: every public property leaves `_data`
    bit-identical.  In the model this is true by construction (the model is
    functional); what carries the clause is the oracle's deep comparison around
    every property read of every class on the implementation. *)
 Proof. exact @pure_properties_no_mutation. Qed.
 Print Assumptions C16_other_properties_pure_partial.
 
-(* non-vacuity: a safe, well-formed, non-trivial instance of the hypotheses of
-   theorems 1, 2, 5, 6: a 2x3 misorientation with mixed flags and symmetry
-   (D6, Oh) through getitem / flatten / inverse / reshape / stack *)
+(* non-vacuity: a well-formed, non-trivial instance of the hypotheses of
+   theorems 1, 2, 5, 6, 7: a 2x3 misorientation with mixed flags and symmetry
+   (D6, Oh) through getitem / transpose / unit / minus / flatten / inverse /
+   reshape / stack -- i.e. through the formerly refuted strata as well -- and a
+   Miller object with phase and format through minus and squeeze *)
 Example C16_nonvacuous :
   let x := mkObj [2; 3] [(1, true); (2, false); (3, true); (4, false); (5, false); (6, true)]
                  (mkMeta 3 5 0 0) in
-  let p := [OGet (KBasic [KSlice None None (Some (-1)%Z)]); OFlatten; OEl EInv;
-            OReshape [3%Z; (-1)%Z]; OStack [EId; EInv]] in
-  wf CMis x = true /\ safe_run vfN CMis p x = true
+  let p := [OGet (KBasic [KSlice None None (Some (-1)%Z)]); OTranspose None; OEl EUnit; OEl ENeg;
+            OFlatten; OEl EInv; OReshape [3%Z; (-1)%Z]; OStack [EId; EInv]] in
+  let q := [OGet (KBasic [KSlice None None (Some (-1)%Z)]); OTranspose None; OEl EUnit; OEl ENeg] in
+  let m := mkObj [1; 2] [(7, false); (8, false)] (mkMeta 0 0 1 2) in
+  wf CMis x = true
   /\ (exists y, run (step_cls vfN CMis) p x = Some y /\ oshape y = [3; 2; 2])
+  /\ run (step_cls vfN CMis) q x
+     = Some (mkObj [3; 2] [(4, true); (1, false); (5, true); (2, true); (6, false); (3, false)]
+                   (mkMeta 3 5 0 0))
+  /\ wf CMil m = true
+  /\ run (step_cls vfN CMil) [OEl ENeg; OSqueeze] m
+     = Some (mkObj [2] [(7, false); (8, false)] (mkMeta 0 0 1 2))
   /\ perm_ok 3 [2; 0; 1] = true /\ valid [2; 3; 4] [1; 2; 3].
 Proof.
   repeat split; try (vm_compute; reflexivity).
